@@ -132,6 +132,8 @@ def check(ctx, rep):
         first = [v for t, v, b in q.atoms(p) if q.self_field(t) and t != EVENTS]
         if first and first[0] is False:
             rep.ob("R-REFS-EVENT", "get_event installs the exit hook on first use", len(regs) == 1, "", where_of(ge))
+    nreb = roles.rebuild_rule(ctx, rep, h, EVENTS[2], "R-REFS-EVENT", "the registry of worker events")
+    rep.count("rebuilds of the event registry", nreb, 1)
     hooked = [p for p in ps if any(q.call_name(e) == "register" for e in p.calls())]
     rep.ob("R-REFS-EVENT", "get_event has a path installing the exit hook", bool(hooked), "atexit registration of on_exiting not found", where_of(ge))
 
@@ -193,6 +195,11 @@ def check(ctx, rep):
             dels = [e for e in p.evs("del") if e.d["target"] == F] + [e for e in p.evs("store") if e.d["target"] == F and e.d["value"] == ("const", None)]
             calls = [e for e in p.calls() if e.d["func"] == F]
             rep.ob("R-REFS-FUTURE", "%s drops its target before calling it" % wc.name, len(dels) >= 1 and len(calls) == 1 and dels[0].seq < calls[0].seq and tuple(calls[0].d["args"]) == (("star", ("seq", (), ("param", call.vararg), 0)),), "", where_of(call), trace_of(p))
+
+    # a poll entry is removed by the future's own done-callback, so it must not be possible for the future to
+    # finish before the entry exists (shared with C08)
+    from .c08 import register_order_rule
+    register_order_rule(ctx, rep, "R-REFS-JOBS")
 
     # ---- R-REFS-JOBS
     rex = prog.cls("RetryExecutor")
